@@ -72,9 +72,10 @@ def main():
         problem = SingleObjectiveProblem(ff, minimize=bool(cfg.get("minimize", False)))
         budget = EvaluationBudget(cfg["evals"])
         alg = cfg["alg"]
-        init = {"standard": StandardInitializer, "grow": GrowInitializer}.get(cfg.get("init", "standard"))()
         if cfg.get("init") == "full" and rk == "tree":
             init = FullInitializer(d)
+        else:
+            init = {"standard": StandardInitializer, "grow": GrowInitializer}.get(cfg.get("init", "standard"), StandardInitializer)()
         try:
             if alg == "GP":
                 a = GeneticProgramming(problem, budget, rep, rs, population_size=cfg.get("pop", 8), population_initializer=init)
